@@ -8,7 +8,7 @@ EXTENDS Naturals, Sequences, FiniteSets, TLC, Json
 CONSTANTS NDefs, U          \* U = "small" | "medium"
 LabIdOf(l) == CASE l = "1" -> 1 [] l = "a" -> 97 [] l = "97" -> 97 [] l = "b" -> 98 [] OTHER -> 0
 INSTANCE WellFormed WITH LabId <- LabIdOf
-Names == {"A", "B"}
+Names == IF U = "alias" THEN {"A", "B", "C", "D"} ELSE {"A", "B"}
 Prim(n) == [k |-> "prim", n |-> n]
 Var(n) == [k |-> "var", n |-> n]
 Arg(n, t) == [n |-> n, t |-> t]
@@ -25,13 +25,15 @@ SimpleFunc == [k |-> "func", args |-> <<>>, rets |-> <<>>, modes |-> <<>>]
 MethTys == {SimpleFunc, Var("A"), Var("B"), Var("Z"), [k |-> "func", args |-> <<>>, rets |-> <<Arg("", Prim("nat"))>>, modes |-> <<"oneway">>], [k |-> "func", args |-> <<Arg("", Var("A"))>>, rets |-> <<Arg("", Var("B"))>>, modes |-> <<"query">>]}
 Servs == {[k |-> "service", ms |-> <<>>]} \cup {[k |-> "service", ms |-> <<[name |-> "m", t |-> mt]>>] : mt \in MethTys}
          \cup {[k |-> "service", ms |-> <<[name |-> "m", t |-> SimpleFunc], [name |-> nm, t |-> Var("A")]>>] : nm \in {"m", "n"}}
-Bodies == Refs \cup [k : {"opt", "vec"}, a : FRefs \cup {Var("B")}]
+AliasBodies == {Prim("nat"), Var("A"), Var("B"), Var("C"), Var("D"), [k |-> "opt", a |-> Var("A")], [k |-> "vec", a |-> Var("C")], [k |-> "service", ms |-> <<>>]}
+FullBodies == Refs \cup [k : {"opt", "vec"}, a : FRefs \cup {Var("B")}]
           \cup [k : {"record", "variant"}, fs : FieldSeqs] \cup Funcs \cup Servs
+Bodies == IF U = "alias" THEN AliasBodies ELSE FullBodies
 AllActors == {[k |-> "none"]} \cup Servs \cup {Var("A"), Var("B"), Var("Z")}
           \cup {[k |-> "class", args |-> a, t |-> s] : a \in {<<>>, <<Arg("", Var("A"))>>, <<Arg("x", Prim("nat")), Arg("x", Prim("nat"))>>}, s \in {Var("A"), Var("Z"), [k |-> "service", ms |-> <<>>], [k |-> "service", ms |-> <<[name |-> "m", t |-> SimpleFunc]>>]}}
 SmallActors == {[k |-> "none"], [k |-> "service", ms |-> <<>>], [k |-> "service", ms |-> <<[name |-> "m", t |-> Var("A")]>>], [k |-> "service", ms |-> <<[name |-> "m", t |-> SimpleFunc], [name |-> "m", t |-> Var("A")]>>],
                 Var("A"), Var("Z"), [k |-> "class", args |-> <<Arg("", Var("A"))>>, t |-> Var("B")], [k |-> "class", args |-> <<Arg("x", Prim("nat")), Arg("x", Prim("nat"))>>, t |-> [k |-> "service", ms |-> <<>>]]}
-Actors == IF U = "small" THEN SmallActors ELSE AllActors
+Actors == IF U = "small" THEN SmallActors ELSE IF U = "alias" THEN {[k |-> "none"], Var("A"), Var("D")} ELSE AllActors
 VARIABLES prog, ph
 Init == prog = [defs |-> <<>>, actor |-> [k |-> "none"]] /\ ph = 0
 AddDef == /\ ph = 0 /\ Len(prog.defs) < NDefs
